@@ -42,6 +42,11 @@ def single_byte_codecs():
     return list(_codecs)
 
 
+def is_text(c):
+    """Element carries text (no python type, or the documented default 'string' written out)."""
+    return c.get('field_python_type') in (None, '', 'string')
+
+
 def repertoire(enc):
     """Characters c with c.encode(enc) a single byte that decodes back to c."""
     r = _repertoire.get(enc)
@@ -279,6 +284,8 @@ def gen_config(rng, with_decimal=True):
                 c['field_length'] = 0
             else:
                 var_text.append(b)
+        if 'field_python_type' not in c and rng.random() < 0.25:
+            c['field_python_type'] = 'string'          # the documented default, written out
         cfg[str(b)] = c
     rng.shuffle(var_text)
     lll = [b for b in var_text if cfg[str(b)]['field_type'] == 'LLLVAR']
@@ -307,10 +314,12 @@ def packaged_variant(rng, base):
     import copy
     cfg = copy.deepcopy(base)
     plain = [b for b, c in cfg.items() if c['field_type'] in ('LLVAR', 'LLLVAR') and not c.get('field_processor')
-             and not c.get('field_python_type')]
+             and is_text(c)]
     rng.shuffle(plain)
     for b in plain[:rng.randint(1, 3)]:
         cfg[b]['field_processor'] = rng.choice(['PAN', 'PAN-PREFIX'])
+        if rng.random() < 0.5:
+            cfg[b]['field_python_type'] = 'string'     # as in the example at the top of cardutil/config.py
     return cfg
 
 
